@@ -29,6 +29,9 @@ Space (every member is visited, nothing sampled)
             two consecutive calls on one parser object (models.grammar.spanline_texts).
   diverge : directed family "three alternatives with one first symbol, non-monotone divergence"
             (models.grammar.family_diverge), all six orders.
+  twice   : directed family "one symbol completed twice in one text under different lookaheads"
+            (models.grammar.family_twice): A = every ordered list of 2-4 alternatives (length <= 2,
+            thorough 3) with a common-first-terminal group next to a plain alternative; E -> A A [t].
   prefix  : directed family for factorization (models.grammar.family_prefix): common prefixes of length
             1-3 starting with a terminal or a non-terminal, 2-7 remainders (crossing the "more than 5
             alternatives" rule of smart factorization), nested common prefixes, nullable remainders.
@@ -100,14 +103,14 @@ _SPACES = {
               ("split", "EA", "ab", 0, 0, 0, 4, 8), ("seq", "EWA", "wvxy", 0, 0, 0, 3, 24),
               ("blank", "EA", "blank", 2, 2, 4, 3, 16), ("diverge", "EA", "pabcdxy", 0, 0, 0, 3, 8),
               ("span", "EA", "span", 0, 0, 0, 2, 6), ("kwskip", "EA", "kwskip", 2, 2, 3, 3, 8),
-              ("spanline", "EA", "span2", 0, 0, 0, 0, 1)],
+              ("spanline", "EA", "span2", 0, 0, 0, 0, 1), ("twice", "EA", "ab", 4, 2, 0, 4, 16)],
     "thorough": [("sized", "EA", "ab", 3, 3, 6, 5, 64), ("sized", "EA", "ab", 3, 3, 7, 4, 200),
                  ("sized", "EAB", "a", 2, 3, 6, 5, 64), ("sized", "EAB", "ab", 2, 2, 5, 4, 48),
                  ("sized", "EA", "kw", 2, 2, 5, 3, 48), ("prefix", "EA", "ab", 0, 0, 0, 5, 64),
                  ("split", "EA", "ab", 0, 0, 0, 5, 16), ("seq", "EWA", "wvxy", 0, 0, 0, 5, 48),
                  ("blank", "EA", "blank", 2, 2, 5, 5, 48), ("diverge", "EA", "pabcdxy", 0, 0, 0, 4, 24),
                  ("span", "EA", "span", 0, 0, 0, 3, 6), ("kwskip", "EA", "kwskip", 2, 2, 4, 4, 16),
-                 ("spanline", "EA", "span2", 0, 0, 0, 0, 1)],
+                 ("spanline", "EA", "span2", 0, 0, 0, 0, 1), ("twice", "EA", "ab", 4, 3, 0, 5, 64)],
 }
 # the prefix family is enumerated completely in both tiers; the tiers differ in its input length only
 
@@ -174,6 +177,10 @@ def bounds(tier):
             out.append({"space": "sized", "non_terminals": list(nts), "terminals": list(cfg.terms),
                         "max_alternatives": ma, "max_alt_len": ml, "max_total_size": ms,
                         "grammars": G.count_sized(len(nts), len(cfg.terms), ma, ml, ms),
+                        "input_len_max": L, "inputs_per_mode": len(G.all_inputs(cfg, L))})
+        elif kind == "twice":
+            out.append({"space": "symbol-completed-twice family (group next to a plain alternative)",
+                        "grammars": sum(1 for _ in G.family_twice(cfg.terms, max_alt_len=ml, max_alts=ma)),
                         "input_len_max": L, "inputs_per_mode": len(G.all_inputs(cfg, L))})
         elif kind == "split":
             out.append({"space": "split-family (shared leading part, not adjacent)",
@@ -419,6 +426,9 @@ def _grammars(tier, shard):
         gen = (g for j, g in enumerate(G.family_seq(cfg.terms, tuple(nts))) if j % K == k)
     elif kind == "diverge":
         gen = (g for j, g in enumerate(G.family_diverge(cfg.terms, tuple(nts))) if j % K == k)
+    elif kind == "twice":
+        gen = (g for j, g in enumerate(G.family_twice(cfg.terms, tuple(nts), max_alt_len=ml, max_alts=ma))
+               if j % K == k)
     elif kind == "split":
         gen = (g for j, g in enumerate(G.family_split(cfg.terms, tuple(nts))) if j % K == k)
     else:
